@@ -18,6 +18,9 @@ import ICG.Lemmas.Regret
 import ICG.Lemmas.RegretNode
 import ICG.Lemmas.RegretIter
 import ICG.Lemmas.RegretAvg
+import ICG.Lemmas.RegretPass
+import ICG.Lemmas.RegretTree
+import ICG.Lemmas.RegretPid
 import Mathlib.Algebra.Order.Field.Basic
 import Mathlib.Algebra.Order.Field.Rat
 
@@ -240,6 +243,11 @@ theorem pid_map_ok : PidMapOK (coalitionPlayerIdMap 3) (numCoalitions 3) ∧
     PidMapOK (coalitionPlayerIdMap 4) (numCoalitions 4) ∧ PidMapOK (coalitionPlayerIdMap 5) (numCoalitions 5) :=
   ⟨pidMapOK_3, pidMapOK_4, pidMapOK_5⟩
 
+/-- … and for every `n ≥ 2`: the `2^n − n − 2` coalitions of size ∉ {0, 1, n} get the player ids
+    `0 .. m-1` in id order, everything else −1 -/
+theorem pid_map_ok_general {n : Nat} (hn : 2 ≤ n) : PidMapOK (coalitionPlayerIdMap n) (numCoalitions n) :=
+  pidMapOK_general hn
+
 /-- **plus**: after every successful iteration of the plus variant all cumulative regrets are ≥ 0 -/
 theorem plus_regret_nonneg {rm rm' : RM α} {t : List α} {u : List (List Nat)} (hp : rm.plus = true)
     (h : rm.iterate t u = .ok rm') : ∀ row ∈ rm'.regret, ∀ x ∈ row, 0 ≤ x :=
@@ -262,33 +270,10 @@ theorem minimiser_nodes_have_unused {p : Policy} {n limit : Nat} {plus : Bool} {
       (∀ a ∈ players rm.rankToId[i], a < rm.m) ∧ ∃ j, j < rm.m ∧ j ∉ players rm.rankToId[i] :=
   Regret.minimiser_nodes_have_unused hn h hst
 
-/-
-  FULL STATEMENT (tree induction) — not proved as one theorem:
-
-    theorem tree_invariant (rm reachable from `RM.new p n limit plus`, p covering every id, stored limit
-        ≤ min m limit, terminal losses ≥ 0, used_actions = lists of viable coalitions ranked in the table) :
-      ∃ rm', rm.iterate terminal used = .ok rm' ∧
-        ∀ i < R: strategy of node i before and after is a distribution with support on unused coalitions,
-                 regret' i − regret i ⟂ strategy i (plain), regret' ≥ 0 (plus), regret' ≤ 0 on used,
-                 cumulative strategy ≥ 0 and 0 on used  (⇒ average strategy by `average_strategy_distribution`)
-
-  PROVED: the base case for every n ≥ 2 and limit (`tree_invariant_partial` below); the induction step at
-  one node in full generality (`node_update_invariants`, `strategy_distribution`,
-  `average_strategy_distribution`, `experienced_nonneg`); `plus_regret_nonneg` and the frame
-  (`Regret.iterate_frame`: tables, R, m, limit unchanged) for the whole iteration; that every minimiser
-  node has an unused coalition (`minimiser_nodes_have_unused`).
-  MISSING: the bookkeeping that threads these through the two `foldlM` passes of `RM.iterate` — that
-  under the structural facts above every `getIdx` / `assignMany` of the passes is in range (so the
-  iteration returns `.ok`), that reach probabilities and experienced losses stay ≥ 0 entrywise, that
-  `q[i]` is written only at step `i`, only at unused positions, with entries of `exp`, and that `exp[i]`
-  is not overwritten after step `i`.  None of it needs the tree structure beyond "child ids are ranked".
-  The correspondence stream checks exactly these clauses on the real code at every node and iteration.
--/
-
 /-- base case of the tree invariant, for every `n ≥ 2`, every limit ≥ 0 and both variants: on a freshly
     constructed object (table covering every id, stored limit clipped) **every** regret minimiser's
     current strategy is a probability distribution supported on the unrevealed coalitions. -/
-theorem tree_invariant_partial {p : Policy} {n limit : Nat} {plus : Bool} {rm : RM α}
+theorem tree_invariant_base {p : Policy} {n limit : Nat} {plus : Bool} {rm : RM α}
     (hn : 2 ≤ n) (h : RM.new (α := α) p n limit plus = .ok rm)
     (hst : p.storedLimit (numCoalitions n) limit ≤ min (numCoalitions n) limit) :
     ∀ i (hi : i < rm.R),
@@ -308,7 +293,221 @@ theorem tree_invariant_partial {p : Policy} {n limit : Nat} {plus : Bool} {rm : 
   intro a _ ha
   simp [zeros]
 
+/-- **admissible inputs of `regret_min_iteration`** (`Regret.ValidInput`, spelled out): every used-action
+    list is a set of viable coalitions whose id is ranked (at most `limit` of them); one terminal loss per
+    list, or a single one that numpy broadcasts; all terminal losses ≥ 0. -/
+theorem validInput_iff (rm : RM α) (terminal : List α) (used : List (List Nat)) :
+    ValidInput rm terminal used ↔
+      (∀ x ∈ used, ∃ id, rm.getMetacoalitionId x = .ok id ∧ id ∈ rm.rankToId) ∧
+      (terminal.length = used.length ∨ terminal.length = 1) ∧ ∀ x ∈ terminal, 0 ≤ x := Iff.rfl
+
+/-- the states of the property: constructed under a policy whose stored limit is clipped (the table
+    covers every id since the constructor succeeded), then any history of iterations with admissible
+    inputs -/
+inductive TreeReachable (p : Policy) : RM α → Prop
+  | new {n limit plus rm} : p.storedLimit (numCoalitions n) limit ≤ min (numCoalitions n) limit →
+      RM.new (α := α) p n limit plus = .ok rm → TreeReachable p rm
+  | iter {rm rm' t u} : TreeReachable p rm → ValidInput rm t u → rm.iterate t u = .ok rm' →
+      TreeReachable p rm'
+
+/-- **the invariant**: every rank `< R` (number of regret minimisers) is the rank of a node, and at every
+    such node `mc` (of rank `i`):
+    the node holds only viable coalitions and has an unrevealed one;
+    its cumulative-regret row is ≤ 0 on the revealed coalitions (and ≥ 0 everywhere for `plus`);
+    its current strategy is a probability distribution that is 0 on the revealed coalitions;
+    its cumulative-strategy row is ≥ 0 and 0 on the revealed coalitions. -/
+def TreeInvariant (rm : RM α) : Prop :=
+  rm.R ≤ rm.rankToId.length ∧
+  ∀ i mc, i < rm.R → rm.rankToId[i]? = some mc →
+    ((∀ a ∈ players mc, a < rm.m) ∧ ∃ j, j < rm.m ∧ j ∉ players mc) ∧
+    (∃ row : List α, rm.regret[i]? = some row ∧ row.length = rm.m ∧
+      (∀ a ∈ players mc, ∀ h : a < row.length, row[a] ≤ 0) ∧ (rm.plus = true → ∀ x ∈ row, 0 ≤ x)) ∧
+    (∃ σ : List α, rm.regretMatching mc = .ok σ ∧ σ.length = rm.m ∧ (∀ x ∈ σ, 0 ≤ x) ∧ σ.sum = 1 ∧
+      ∀ a ∈ players mc, σ[a]? = some 0) ∧
+    (∃ srow : List α, rm.strategy[i]? = some srow ∧ srow.length = rm.m ∧ (∀ x ∈ srow, 0 ≤ x) ∧
+      ∀ a ∈ players mc, srow[a]? = some 0)
+
+theorem new_two_le {p : Policy} {n limit : Nat} {plus : Bool} {rm : RM α}
+    (h : RM.new (α := α) p n limit plus = .ok rm) : 2 ≤ n := by
+  by_contra hcon
+  unfold RM.new at h
+  have : n < 2 := by omega
+  simp [this] at h
+
+/-- every reachable state has the structure the passes rely on and satisfies the loop-free invariant of
+    `ICG.Lemmas.RegretTree` -/
+theorem reachable_inv {p : Policy} {rm : RM α} (h : TreeReachable p rm) : Struct rm ∧ Inv rm := by
+  induction h with
+  | new hst h =>
+    have hn := new_two_le h
+    have hs := new_struct hn h hst
+    obtain ⟨_, _, _, _, _, _, _, _, _, hreg, hstr, _⟩ := new_spec hn h
+    exact ⟨hs, zero_inv hs hreg hstr⟩
+  | iter _ hin hit ih =>
+    obtain ⟨rm'', hok, hs', hI', _⟩ := iterate_inv ih.1 ih.2 hin
+    rw [hit] at hok
+    cases hok
+    exact ⟨hs', hI'⟩
+
+theorem treeInvariant_of {rm : RM α} (hs : Struct rm) (hI : Inv rm) : TreeInvariant rm := by
+  refine ⟨hs.R_le_V, ?_⟩
+  intro i mc hi hmc
+  have hir : i < rm.regret.length := by rw [hI.regret_len]; exact hi
+  have his : i < rm.strategy.length := by rw [hI.strategy_len]; exact hi
+  refine ⟨⟨hs.used_lt i mc hi hmc, hs.unused i mc hi hmc⟩,
+    ⟨rm.regret[i], List.getElem?_eq_getElem hir, hI.regret_row _ (List.getElem_mem _),
+      hI.used_nonpos i mc _ hmc (List.getElem?_eq_getElem hir),
+      fun hp => hI.plus_nonneg hp _ (List.getElem_mem _)⟩,
+    hI.strat hs i mc hi hmc,
+    ⟨rm.strategy[i], List.getElem?_eq_getElem his, (hI.strategy_row _ (List.getElem_mem _)).1,
+      (hI.strategy_row _ (List.getElem_mem _)).2, hI.strategy_supp i mc _ hmc (List.getElem?_eq_getElem his)⟩⟩
+
+/-- **tree invariant (the induction over iterations for the whole tree).**  For every `n ≥ 2`, every
+    limit, plain / plus, under a policy whose table covers every id and whose stored limit is clipped to
+    `min m limit` (the repaired policy), after every history of iterations with admissible inputs
+    (non-negative terminal losses):
+    the invariant holds at every node that has a regret minimiser, and the next `regret_min_iteration`
+    with admissible inputs **returns `.ok`** (every index of both passes is in range, no 0/0) in a state
+    that satisfies the invariant again. -/
+theorem tree_invariant {p : Policy} {rm : RM α} (h : TreeReachable p rm) :
+    TreeInvariant rm ∧
+    ∀ t u, ValidInput rm t u → ∃ rm', rm.iterate t u = .ok rm' ∧ TreeReachable p rm' ∧ TreeInvariant rm' := by
+  obtain ⟨hs, hI⟩ := reachable_inv h
+  refine ⟨treeInvariant_of hs hI, fun t u hin => ?_⟩
+  obtain ⟨rm', hok, hs', hI', _⟩ := iterate_inv hs hI hin
+  exact ⟨rm', hok, .iter h hin hok, treeInvariant_of hs' hI'⟩
+
+/-- the repaired policy clips the stored limit -/
+theorem repaired_clips (m limit : Nat) : Policy.repaired.storedLimit m limit ≤ min m limit := le_refl _
+
+/-- the current policy does not (limit > m): the reason for `current_nan` -/
+example : ¬ Policy.current.storedLimit 3 4 ≤ min 3 4 := by decide
+
+/-- **current strategy, every reachable state**: at every node that has a regret minimiser,
+    `regret_matching_strategy` (by id and by list of revealed coalitions) succeeds and returns a probability
+    distribution that is 0 on the coalitions already revealed at the node — i.e. supported on viable,
+    not yet revealed coalitions (there are only viable positions, `σ.length = m`). -/
+theorem current_strategy_distribution {p : Policy} {rm : RM α} (h : TreeReachable p rm) {i mc : Nat}
+    (hi : i < rm.R) (hmc : rm.rankToId[i]? = some mc) :
+    ∃ σ, rm.regretMatching mc = .ok σ ∧
+      (∀ cs, rm.getMetacoalitionId cs = .ok mc → rm.regretMatchingOf cs = .ok σ) ∧
+      σ.length = rm.m ∧ (∀ x ∈ σ, 0 ≤ x) ∧ σ.sum = 1 ∧ ∀ a ∈ players mc, σ[a]? = some 0 := by
+  obtain ⟨_, _, ⟨σ, hσ, rest⟩, _⟩ := (tree_invariant h).1.2 i mc hi hmc
+  refine ⟨σ, hσ, ?_, rest⟩
+  intro cs hcs
+  unfold RM.regretMatchingOf
+  rw [hcs, ok_bind, hσ]
+
+/-- in every reachable state the coalition → player-id map is the constructor's -/
+theorem reachable_pidMap {p : Policy} {rm : RM α} (h : TreeReachable p rm) : PidMapOK rm.pidMap rm.m := by
+  induction h with
+  | new _ h =>
+    have hn := new_two_le h
+    obtain ⟨_, h2, _, _, _, _, _, _, h9, _⟩ := new_spec hn h
+    rw [h2, h9]; exact pidMapOK_general hn
+  | iter _ _ hit ih => rw [iterate_frame hit]; exact ih
+
+/-- **average strategy, every reachable state**: at every node that has a regret minimiser,
+    `get_average_strategy` succeeds (no 0/0) and returns a probability distribution over coalition ids
+    that is 0 on every non-viable id and on every coalition already revealed at the node. -/
+theorem average_strategy_distribution_reachable {p : Policy} {rm : RM α} (h : TreeReachable p rm)
+    {cs : List Nat} {i mc : Nat}
+    (hid : rm.getMetacoalitionId cs = .ok mc) (hi : i < rm.R) (hmc : rm.rankToId[i]? = some mc) :
+    ∃ avg, rm.averageStrategy cs = .ok avg ∧ avg.length = rm.pidMap.length ∧ (∀ x ∈ avg, 0 ≤ x) ∧
+      avg.sum = 1 ∧
+      ∀ c (hc : c < rm.pidMap.length), (rm.pidMap[c] < 0 ∨ rm.pidMap[c].toNat ∈ players mc) →
+        avg[c]? = some 0 := by
+  obtain ⟨hs, _⟩ := reachable_inv h
+  obtain ⟨⟨hused, hfree⟩, _, _, ⟨srow, hsrow, hlen, hnn, hsupp⟩⟩ := (tree_invariant h).1.2 i mc hi hmc
+  have hiV : i < rm.rankToId.length := lt_of_lt_of_le hi hs.R_le_V
+  have hrank : rm.rankOf mc = .ok i := by
+    obtain ⟨_, hh⟩ := List.getElem?_eq_some_iff.mp hmc
+    rw [← hh]; exact hs.rank_id i hiV
+  exact averageStrategy_distribution hid hrank (getIdx_of_getElem? hsrow) hlen hnn hsupp hused hfree
+    (reachable_pidMap h)
+
+/-- **orthogonality, every reachable state**: in an iteration from a reachable state, at every node that
+    has a regret minimiser, the regret added (`add`, before the clipping of the plus variant) is
+    orthogonal to the strategy `σ` played at the node; for the plain variant that is `row' − row`. -/
+theorem orthogonality_reachable {p : Policy} {rm rm' : RM α} (h : TreeReachable p rm) {t : List α}
+    {u : List (List Nat)} (hin : ValidInput rm t u) (hit : rm.iterate t u = .ok rm') {i mc : Nat}
+    (hi : i < rm.R) (hmc : rm.rankToId[i]? = some mc) :
+    ∃ σ row row' add : List α, rm.regretMatching mc = .ok σ ∧ rm.regret[i]? = some row ∧
+      rm'.regret[i]? = some row' ∧ add.length = rm.m ∧
+      (List.zipWith (· * ·) σ add).sum = 0 ∧
+      row' = (if rm.plus then (List.zipWith (· + ·) row add).map Regret.posPart else List.zipWith (· + ·) row add) ∧
+      (rm.plus = false → (List.zipWith (· * ·) σ (List.zipWith (fun r' r => r' - r) row' row)).sum = 0) := by
+  obtain ⟨hs, hI⟩ := reachable_inv h
+  obtain ⟨rm'', hok, _, _, hnode⟩ := iterate_inv hs hI hin
+  rw [hit] at hok
+  cases hok
+  obtain ⟨σ, row, add, hσ, hrow, hal, horth, hrow'⟩ := hnode i mc hi hmc
+  refine ⟨σ, row, _, add, hσ, hrow, hrow', hal, horth, rfl, ?_⟩
+  intro hp
+  have hrl : row.length = rm.m := hI.regret_row _ (List.mem_of_getElem? hrow)
+  simp only [hp, Bool.false_eq_true, if_false]
+  rw [zipWith_add_sub_cancel row add (by rw [hrl, hal])]
+  exact horth
+
+/-- **plus, every reachable state**: all cumulative regrets of the plus variant are ≥ 0 -/
+theorem plus_nonneg_reachable {p : Policy} {rm : RM α} (h : TreeReachable p rm) (hp : rm.plus = true) :
+    ∀ row ∈ rm.regret, ∀ x ∈ row, 0 ≤ x :=
+  (reachable_inv h).2.plus_nonneg hp
+
+/-- the regret of a revealed coalition is never positive in a reachable state (so revealed coalitions are
+    never played again) -/
+theorem used_regret_nonpos_reachable {p : Policy} {rm : RM α} (h : TreeReachable p rm) {i mc : Nat}
+    {row : List α} (hmc : rm.rankToId[i]? = some mc) (hrow : rm.regret[i]? = some row) :
+    ∀ a ∈ players mc, ∀ ha : a < row.length, row[a] ≤ 0 :=
+  (reachable_inv h).2.used_nonpos i mc row hmc hrow
+
 end tree
+
+/-- the hypotheses are satisfiable by a non-trivial instance: `n = 3`, `limit = 2`, the repository's own
+    test vector as the first iteration, then a second iteration from the state reached -/
+example : ∃ rm rm' rm'' : RM ℚ, RM.new Policy.repaired 3 2 false = .ok rm ∧
+    ValidInput rm [1, 0, 0] [[3, 5], [5, 6], [3, 6]] ∧ rm.iterate [1, 0, 0] [[3, 5], [5, 6], [3, 6]] = .ok rm' ∧
+    ValidInput rm' [0, 2, 1] [[3, 5], [5, 6], [3, 6]] ∧ rm'.iterate [0, 2, 1] [[3, 5], [5, 6], [3, 6]] = .ok rm'' ∧
+    TreeReachable Policy.repaired rm'' ∧ TreeInvariant rm'' := by
+  obtain ⟨rm, hnew, hn, _, _, _, hids, _⟩ :=
+    constructible (α := ℚ) Policy.repaired (n := 3) (by decide) 2 false (repaired_covers _)
+  obtain ⟨_, _, _, _, _, _, _, _, hpm, _⟩ := new_spec (by decide) hnew
+  have hvalid : ∀ rm1 : RM ℚ, rm1.n = 3 → rm1.pidMap = coalitionPlayerIdMap 3 → rm1.rankToId = metaIds 3 2 →
+      ∀ t : List ℚ, t.length = 3 → (∀ x ∈ t, 0 ≤ x) → ValidInput rm1 t [[3, 5], [5, 6], [3, 6]] := by
+    intro rm1 h1 h2 h3 t ht hnn
+    refine ⟨?_, Or.inl ht, hnn⟩
+    intro x hx
+    simp only [getMetacoalitionId_eq, h1, h2, h3]
+    simp only [List.mem_cons, List.not_mem_nil, or_false] at hx
+    rcases hx with rfl | rfl | rfl
+    · exact ⟨3, by decide +kernel, by decide +kernel⟩
+    · exact ⟨6, by decide +kernel, by decide +kernel⟩
+    · exact ⟨5, by decide +kernel, by decide +kernel⟩
+  have hr0 : TreeReachable Policy.repaired rm := .new (repaired_clips _ _) hnew
+  have hv0 := hvalid rm hn hpm hids [1, 0, 0] rfl (by decide)
+  obtain ⟨rm', hit1, hr1, _⟩ := (tree_invariant hr0).2 _ _ hv0
+  have hf := iterate_frame hit1
+  have hv1 := hvalid rm' (by rw [hf]; exact hn) (by rw [hf]; exact hpm) (by rw [hf]; exact hids)
+    [0, 2, 1] rfl (by decide)
+  obtain ⟨rm'', hit2, hr2, hinv2⟩ := (tree_invariant hr1).2 _ _ hv1
+  exact ⟨rm, rm', rm'', hnew, hv0, hit1, hv1, hit2, hr2, hinv2⟩
+
+/-- the theorems are about the functions the driver runs (core `Rat` instances) -/
+example {rm : RM Rat} (h : TreeReachable (α := ℚ) Policy.repaired rm) {t : List Rat} {u : List (List Nat)}
+    (hin : ValidInput (α := ℚ) rm t u) : ∃ rm', RM.iterate (α := Rat) rm t u = .ok rm' :=
+  let ⟨rm', h', _⟩ := (tree_invariant h).2 t u hin
+  ⟨rm', h'⟩
+
+/-- on that instance the conclusions can be observed: both iterations return, every current strategy of
+    the final state sums to 1, every regret row is orthogonal-updated (root shown), plus keeps regrets ≥ 0 -/
+example : holds (do
+    let rm ← RM.new (α := Rat) Policy.repaired 3 2 true
+    let rm ← rm.iterate [1, 0, 0] [[3, 5], [5, 6], [3, 6]]
+    let rm ← rm.iterate [0, 2, 1] [[3, 5], [5, 6], [3, 6]]
+    let σs ← (List.range rm.R).mapM (fun i => do let mc ← getIdx rm.rankToId i; rm.regretMatching mc)
+    pure (decide (rm.R = 4 ∧ σs.all (fun σ => listSum σ == 1 && σ.all (fun x => decide (0 ≤ x))) ∧
+      rm.regret.all (fun row => row.all (fun x => decide (0 ≤ x)))))) = true := by
+  decide +kernel
 
 example : holds (do
     let rm ← RM.new (α := Rat) Policy.repaired 3 2 false
